@@ -68,6 +68,35 @@ static void PyVar_Assign(PyObject **v, PyObject *e) { Py_XDECREF(*v); *v=e;}
 #define ASSERT(C, S, R) if (! (C)) { \
   PyErr_SetString(PyExc_AssertionError, (S)); return (R); }
 
+#ifdef BTREES_VERIF
+/* Verification hooks; compiled only when the build defines BTREES_VERIF
+ * (setup.py does so iff the environment has BTREES_VERIF=1).  An allocation
+ * failure countdown consulted by BTree_Malloc/BTree_Realloc, and counters
+ * showing that rarely taken branches were reached.  Off by default.
+ */
+static long verif_alloc_countdown = -1; /* <=0: disarmed; n: fail n-th alloc */
+static long verif_alloc_count = 0;      /* allocations since last arm */
+static long verif_alloc_fired = 0;      /* failures injected since last arm */
+#define VERIF_NPROBES 48
+static long verif_probes[VERIF_NPROBES];
+#define VERIF_PROBE(I) (verif_probes[(I)]++)
+
+static int
+verif_alloc_should_fail(void)
+{
+    verif_alloc_count++;
+    if (verif_alloc_countdown > 0 && --verif_alloc_countdown == 0)
+    {
+        verif_alloc_countdown = -1;
+        verif_alloc_fired++;
+        return 1;
+    }
+    return 0;
+}
+#else
+#define VERIF_PROBE(I)
+#endif
+
 
 #ifdef NEED_LONG_LONG_SUPPORT
 /* Helper code used to support long long instead of int. */
@@ -457,6 +486,13 @@ BTree_Malloc(size_t sz)
 
     ASSERT(sz > 0, "non-positive size malloc", NULL);
 
+#ifdef BTREES_VERIF
+    if (verif_alloc_should_fail())
+    {
+        PyErr_NoMemory();
+        return NULL;
+    }
+#endif
     r = malloc(sz);
     if (r)
         return r;
@@ -472,6 +508,13 @@ BTree_Realloc(void *p, size_t sz)
 
     ASSERT(sz > 0, "non-positive size realloc", NULL);
 
+#ifdef BTREES_VERIF
+    if (verif_alloc_should_fail())
+    {
+        PyErr_NoMemory();
+        return NULL;
+    }
+#endif
     if (p)
         r = realloc(p, sz);
     else
@@ -515,7 +558,56 @@ BTree_ShouldSuppressKeyError()
 #include "SetOpTemplate.c"
 #include "MergeTemplate.c"
 
+#ifdef BTREES_VERIF
+static PyObject *
+verif_alloc_arm(PyObject *ignored, PyObject *args)
+{
+    long n;
+    if (!PyArg_ParseTuple(args, "l", &n))
+        return NULL;
+    verif_alloc_countdown = n > 0 ? n : -1;
+    verif_alloc_count = 0;
+    verif_alloc_fired = 0;
+    Py_RETURN_NONE;
+}
+
+static PyObject *
+verif_alloc_stats(PyObject *ignored, PyObject *args)
+{
+    return Py_BuildValue("ll", verif_alloc_count, verif_alloc_fired);
+}
+
+static PyObject *
+verif_probes_get(PyObject *ignored, PyObject *args)
+{
+    int i;
+    PyObject *t = PyTuple_New(VERIF_NPROBES);
+    if (t == NULL)
+        return NULL;
+    for (i = 0; i < VERIF_NPROBES; i++)
+    {
+        PyObject *v = PyLong_FromLong(verif_probes[i]);
+        if (v == NULL)
+        {
+            Py_DECREF(t);
+            return NULL;
+        }
+        PyTuple_SET_ITEM(t, i, v);
+    }
+    return t;
+}
+#endif
+
 static struct PyMethodDef module_methods[] = {
+#ifdef BTREES_VERIF
+  {"_verif_alloc_arm", (PyCFunction) verif_alloc_arm, METH_VARARGS,
+   "_verif_alloc_arm(n): fail the n-th BTree_Malloc/BTree_Realloc from now; "
+   "n <= 0 disarms.  Resets the counters."},
+  {"_verif_alloc_stats", (PyCFunction) verif_alloc_stats, METH_NOARGS,
+   "_verif_alloc_stats() -> (allocations seen, failures injected)"},
+  {"_verif_probes", (PyCFunction) verif_probes_get, METH_NOARGS,
+   "_verif_probes() -> tuple of branch reach counters"},
+#endif
   {"difference", (PyCFunction) difference_m,    METH_VARARGS,
    "difference(o1, o2)\n"
    "compute the difference between o1 and o2"
